@@ -272,7 +272,7 @@ def tor(*bs):
 
 
 BOOL_TAGS = ('bool', 'le0', 'eq0', 'not', 'and', 'or', 'is_err', 'is_ok', 'is_some', 'is_none', 'matches', 'ptreq',
-             'eq', 'any', 'all')
+             'eq', 'any', 'all', 'fcmp')
 
 
 def simplify_under(c, known):
